@@ -8,6 +8,7 @@ import B2Z.Model.Regions
 import B2Z.Model.IndexBytes
 import B2Z.Model.Icf
 import B2Z.Model.Pipeline
+import B2Z.Model.Schema
 /-! JSON line-protocol driver: one request object per line in, one JSON value per line out.
     Only `Model.*` (core Lean) is imported, so this also builds as a native executable. -/
 open Lean
@@ -294,6 +295,31 @@ def handle (j : Json) : Except String Json := do
       let arr := Pipe.pipeline cfg (fun x => x) vals ps.reverse
       pure (Json.arr ((List.range vals.length).map fun i =>
         match arr i with | none => Json.null | some v => Json.num (JsonNumber.fromInt v)).toArray)
+  | "schema.generate" =>
+    let optInt : Json → Option Int := fun v => match v with | .null => none | x => x.getInt?.toOption
+    let fields ← (← reqArr j "fields").toList.mapM fun f => do
+      pure ({ category := ← (← f.getObjVal? "category").getStr?, name := ← (← f.getObjVal? "name").getStr?,
+              number := ← (← f.getObjVal? "number").getStr?, type := ← (← f.getObjVal? "type").getStr?,
+              maxNumber := ← (← f.getObjVal? "max_number").getNat?,
+              minV := optInt ((f.getObjVal? "min").toOption.getD Json.null),
+              maxV := optInt ((f.getObjVal? "max").toOption.getD Json.null) } : Schema.Field)
+    let m ← reqNat j "num_records"; let n ← reqNat j "num_samples"
+    let nc ← reqNat j "num_contigs"; let nf ← reqNat j "num_filters"
+    let vcs ← reqNat j "variants_chunk_size"; let scs ← reqNat j "samples_chunk_size"
+    let repair := (j.getObjVal? "repair").toOption.bind (·.getBool?.toOption) |>.getD true
+    match Schema.generate repair fields m n nc nf vcs scs with
+    | none => pure (Json.str "error")
+    | some specs => pure (Json.arr (specs.map fun s => Json.mkObj [
+        ("name", Json.str s.name), ("dtype", Json.str s.dtype), ("shape", natsJson s.shape), ("chunks", natsJson s.chunks),
+        ("dimensions", Json.arr (s.dims.map fun d => Json.str d.render).toArray)]).toArray)
+  | "schema.introw" =>
+    let dt ← (← j.getObjVal? "dtype").getStr?
+    let w ← reqNat j "w"
+    let v : Option (List Int) ← match j.getObjVal? "value" with
+      | .ok .null => pure none
+      | .ok x => (intList x).map some
+      | .error _ => pure none
+    pure (optJson intsJson (Schema.intRow dt w v))
   | _ => throw s!"unknown op {op}"
 
 def handleLine (line : String) : String :=
